@@ -237,4 +237,63 @@ pub assume_specification [crate::semantic::types::TypeDefinition::with_cloneable
     ensures r == (crate::semantic::types::TypeDefinition { cloneable: cloneable, ..s });
 pub assume_specification [crate::semantic::types::TypeDefinition::with_defaultable] (s: crate::semantic::types::TypeDefinition, defaultable: bool) -> (r: crate::semantic::types::TypeDefinition)
     ensures r == (crate::semantic::types::TypeDefinition { defaultable: defaultable, ..s });
+
+pub assume_specification [crate::grammar::ItemPath::parent] (p: &crate::grammar::ItemPath) -> (r: Option<crate::grammar::ItemPath>)
+    ensures r == crate::verif_specs::spec_parent(*p);
+pub assume_specification [crate::grammar::ItemPath::join] (p: &crate::grammar::ItemPath, segment: crate::grammar::ItemPathSegment) -> (r: crate::grammar::ItemPath)
+    ensures r == crate::verif_specs::spec_join(*p, segment.0@);
+/// R-fmt helper for `format!(LIT, s)` with a string argument
+#[verifier::external_body]
+pub fn v_format1_str(lit: &str, a: &str) -> (r: String)
+    ensures r@ == crate::verif_specs::spec_fmt1(lit@, a@)
+{
+    match lit {
+        "{}Vftable" => format!("{}Vftable", a),
+        _ => unreachable!("R-fmt applied to an unknown literal"),
+    }
+}
+/// R-std: `s.iter().map(f).sum()` over usize (verified loop; the addition must not overflow, which is the
+/// caller's obligation: std's `sum` panics on overflow in debug builds and wraps in release builds)
+pub fn v_sum_map<T, F: Fn(&T) -> usize>(s: &[T], f: F, Ghost(vals): Ghost<Seq<usize>>) -> (r: usize)
+    requires
+        vals.len() == s@.len(),
+        forall|i: int| 0 <= i < s@.len() ==> f.requires((&#[trigger] s@[i],)),
+        forall|i: int, o: usize| 0 <= i < s@.len() && #[trigger] f.ensures((&s@[i],), o) ==> o == vals[i],
+        crate::verif_specs::seq_sum(vals) <= usize::MAX,
+    ensures r == crate::verif_specs::seq_sum(vals),
+{
+    let mut acc: usize = 0;
+    let mut i: usize = 0;
+    while i < s.len()
+        invariant
+            i <= s.len(), vals.len() == s@.len(),
+            acc == crate::verif_specs::seq_sum(vals.take(i as int)),
+            crate::verif_specs::seq_sum(vals) <= usize::MAX,
+            forall|k: int| 0 <= k < s@.len() ==> f.requires((&#[trigger] s@[k],)),
+            forall|k: int, o: usize| 0 <= k < s@.len() && #[trigger] f.ensures((&s@[k],), o) ==> o == vals[k],
+        decreases s.len() - i,
+    {
+        let x = f(&s[i]);
+        proof {
+            assert(vals.take(i as int + 1).drop_last() == vals.take(i as int));
+            lemma_seq_sum_prefix_le(vals, i as int + 1);
+        }
+        acc = acc + x;
+        i += 1;
+    }
+    proof { assert(vals.take(s@.len() as int) == vals); }
+    acc
+}
+pub proof fn lemma_seq_sum_prefix_le(s: Seq<usize>, k: int)
+    requires 0 <= k <= s.len()
+    ensures crate::verif_specs::seq_sum(s.take(k)) <= crate::verif_specs::seq_sum(s)
+    decreases s.len() - k
+{
+    if k < s.len() {
+        lemma_seq_sum_prefix_le(s, k + 1);
+        assert(s.take(k + 1).drop_last() == s.take(k));
+    } else {
+        assert(s.take(k) == s);
+    }
+}
 }
